@@ -38,6 +38,10 @@ fn corpus() -> Vec<Item> {
         Item { pattern: r"a*b", backtrack_limit: None, texts: ["aaab", "xb", "aé"] },
         Item { pattern: r"(\w+)@(\w+)", backtrack_limit: None, texts: ["me@host", "x @y a@b", "é@é"] },
         Item { pattern: r"(a)|b\K(c)", backtrack_limit: None, texts: ["bc", "a", "xbca"] },
+        // tight backtrack budgets: a budget shared between searches, or reset by another search,
+        // changes a result (the limits are chosen so that some texts just fit and others exceed)
+        Item { pattern: r"(?:a|b)*(?=c)", backtrack_limit: Some(30), texts: ["aabx", "ababababababx", "ax"] },
+        Item { pattern: r"(\w+)\s\1(?=!)", backtrack_limit: Some(6), texts: ["ab ab!", "abcdef abcdex abcdef?", "a b"] },
         Item { pattern: r"(?:(?>(a)|b)){2}", backtrack_limit: None, texts: ["ab", "ba", "bb"] },
     ]
 }
@@ -328,6 +332,56 @@ fn run_mode(cx: &Ctx, serial: bool) -> Option<i32> {
             "summary" => format!("with one schedule running at a time, replaying a recorded schedule does not reproduce it ({}): searches influence each other through state that outlives a search", c)},
         );
     }
+    // Supplementary, labelled SAMPLING (not part of the exhaustive coverage): the same bodies on
+    // free-running OS threads. It reaches what the cooperative scheduler cannot separate (an
+    // unsynchronised access pair between two hook points, e.g. inside one Delegate instruction).
+    // The oracle is exact (the sequential result), so it can only confirm a violation.
+    let stress_rounds = if cx.quick() { 300 } else { 3000 };
+    let mut stress_calls = 0u64;
+    for item in corpus() {
+        let re = match engine::compile_with(item.pattern, |b| {
+            if let Some(l) = item.backtrack_limit {
+                b.backtrack_limit(l);
+            }
+        }) {
+            Ok(r) => ForceShare(r),
+            Err(_) => continue,
+        };
+        let expected: Vec<String> = item.texts.iter().map(|t| one_call(&re.0, t, 0)).collect();
+        let bad: std::sync::Mutex<Option<(usize, String)>> = std::sync::Mutex::new(None);
+        let nthreads = 8usize;
+        std::thread::scope(|s| {
+            for th in 0..nthreads {
+                let (re, expected, bad, item) = (&re, &expected, &bad, &item);
+                s.spawn(move || {
+                    engine::quiet_panics();
+                    let re: &Regex = &re.0;
+                    let local = if th % 2 == 0 { None } else { Some(re.clone()) };
+                    for r in 0..stress_rounds {
+                        let ti = (th + r) % 3;
+                        let rr = local.as_ref().unwrap_or(re);
+                        let got = catch_unwind(AssertUnwindSafe(|| one_call(rr, item.texts[ti], 0))).unwrap_or_else(|p| format!("PANIC: {}", engine::panic_msg(p)));
+                        if got != expected[ti] {
+                            let mut b = bad.lock().unwrap();
+                            if b.is_none() {
+                                *b = Some((ti, got));
+                            }
+                            return;
+                        }
+                    }
+                });
+            }
+        });
+        stress_calls += (nthreads * stress_rounds) as u64;
+        if let Some((ti, got)) = bad.into_inner().unwrap() {
+            t.violation(
+                2,
+                jobj! {"kind" => "c18-stress", "pattern" => item.pattern, "text" => item.texts[ti], "expected" => expected[ti].as_str(), "observed" => got.as_str(),
+                "summary" => format!("free-running stress (8 threads, sampling): /{}/ on {:?} returned {} instead of the sequential result {}", item.pattern, item.texts[ti], got, expected[ti])},
+            );
+        }
+    }
+    t.count("beyond_exhaustive_stress_calls(sampling)", stress_calls);
     t.count("schedules", schedules_total);
     t.count(if serial { "mode_serial" } else { "mode_concurrent_explorations" }, 1);
     if capped_any {
@@ -338,7 +392,7 @@ fn run_mode(cx: &Ctx, serial: bool) -> Option<i32> {
         t,
         Finish {
             rule: format!(
-                "static: the separate crate c18static asserting Regex: Send + Sync + Clone must compile. Dynamic (E3): for each of the 12 corpus patterns (VM programs with delegates, groups, look-around, backreference, atomic group, counted repeat, conditional, \\K; and whole-pattern hand-off), configurations (threads, preemption bound, calls per thread) {:?}, on one shared &Regex and on clones: every schedule with at most that many preemptions is executed on real OS threads (baton passing; scheduling points at run entry/exit and before every VM instruction, hook H4; switching away from a finished thread is free); oracle: every call (captures / find_iter) returns exactly its sequential result, no panic; the first schedule and every failing schedule are replayed and must reproduce; distinct_nontrivial = schedules of VM-compiled patterns",
+                "static: the separate crate c18static asserting Regex: Send + Sync + Clone must compile. Dynamic (E3): for each of the 14 corpus patterns (VM programs with delegates, groups, look-around, backreference, atomic group, counted repeat, conditional, \\K; and whole-pattern hand-off), configurations (threads, preemption bound, calls per thread) {:?}, on one shared &Regex and on clones: every schedule with at most that many preemptions is executed on real OS threads (baton passing; scheduling points at run entry/exit and before every VM instruction, hook H4; switching away from a finished thread is free); oracle: every call (captures / find_iter) returns exactly its sequential result, no panic; the first schedule and every failing schedule are replayed and must reproduce; supplementary and labelled as sampling (not counted in the coverage): the same calls on 8 free-running threads; distinct_nontrivial = schedules of VM-compiled patterns",
                 configs
             ),
             exhaustive: !capped_any,
